@@ -39,7 +39,9 @@ double NewtonBacktrackOneDimension::doStep()
 {
   if (alam_ < alamin_)
   {
+    // Give up: back to the starting point, for the function too (it is still at the last refused trial point).
     getParameter_(0).setValue(0);
+    getFunction()->setParameters(getParameters());
     tolIsReached_ = true;
     return fold_;
   }
